@@ -1,5 +1,5 @@
 SPECIFICATION Spec
 CONSTANTS FixUnprotect = TRUE  FixFragCount = TRUE  GeckoPadCheck = TRUE  TcpAddrCheck = TRUE
-  UDPLenCheck = TRUE  PunchMin = 33  FeedIdxCheck = TRUE  Mode = "seq"  MaxSteps = 8
+  UDPLenCheck = TRUE  PunchMin = 33  FeedIdxCheck = TRUE  Mode = "seq"  Only = ""  MaxSteps = 8
 INVARIANT PrintSeq
 CHECK_DEADLOCK FALSE
